@@ -527,8 +527,16 @@ fn replace_names(input: &str) -> Option<(String, HashMap<String, String>)> {
 
     for (kind, c) in CharClasses::new(input.chars()) {
         if kind != FullCodeCharKind::Normal {
+            if dollar_count > 0 {
+                // A string or a comment between `$` and the end of the name.
+                return None;
+            }
             result.push(c);
         } else if c == '$' {
+            if !cur_name.is_empty() {
+                // `$a$b`: the second name would be taken for a part of the first.
+                return None;
+            }
             dollar_count += 1;
         } else if dollar_count == 0 {
             result.push(c);
@@ -544,11 +552,17 @@ fn replace_names(input: &str) -> Option<(String, HashMap<String, String>)> {
             return None;
         } else if c.is_alphanumeric() || c == '_' {
             cur_name.push(c);
+        } else if !c.is_whitespace() {
+            // `$` followed by something that is not a name: nothing here may be dropped.
+            return None;
         }
     }
 
     if !cur_name.is_empty() {
         register_metavariable(&mut substs, &mut result, &cur_name, dollar_count);
+    } else if dollar_count > 0 {
+        // A `$` at the very end.
+        return None;
     }
 
     debug!("replace_names `{}` {:?}", result, substs);
